@@ -120,17 +120,18 @@ inductive Res (σ : Type)
   | eof (st : BState)                  -- EOB_ACT_END_OF_FILE
   | fuel
 
-/-- the match loop of `yylex` for one token, `p` characters scanned, in state `s` -/
-def scan {σ : Type} (D : DFA σ) (rd : Reader) : Nat → BState → Nat → σ → Last → Res σ
-  | 0, _, _, _, _ => .fuel
-  | fuel + 1, st, p, s, la =>
+/-- the match loop of `yylex` for one token, `p` characters scanned, in state `s`;
+    `rem` is the rest of the buffer from the scan position (`*yy_cp` is its head) -/
+def scan {σ : Type} (D : DFA σ) (rd : Reader) : Nat → BState → Nat → σ → Last → List UInt8 → Res σ
+  | 0, _, _, _, _, _ => .fuel
+  | fuel + 1, st, p, s, la, rem =>
     if D.dead s then .tok st la else
-    match st.buf[st.tok + st.pre + p]? with
-    | some c =>
+    match rem with
+    | c :: rem' =>
       match D.step s c with
       | none => .tok st la
-      | some s' => scan D rd fuel st (p + 1) s' (upd D la (p + 1) s')
-    | none =>
+      | some s' => scan D rd fuel st (p + 1) s' (upd D la (p + 1) s') rem'
+    | [] =>
       -- the end of the buffer: try to get more (the yymore() prefix moves along with the token)
       let (st', k) := refill rd st (st.pre + p)
       if k = 0 then
@@ -139,7 +140,7 @@ def scan {σ : Type} (D : DFA σ) (rd : Reader) : Nat → BState → Nat → σ 
       else
         -- EOB_ACT_CONTINUE_SCAN: the state is computed again from the moved text
         match prevState D st.atBol ((st'.buf.drop st.pre).take p) with
-        | some s' => scan D rd fuel st' p s' la
+        | some s' => scan D rd fuel st' p s' la (st'.buf.drop (st.pre + p))
         | none => .tok st' la
 
 /-- what an action does to the input (the part the buffer level sees) -/
@@ -186,7 +187,7 @@ def tokFuel (st : BState) : Nat := 2 * ((st.buf.length - st.tok) + st.src.length
 def run {σ : Type} (D : DFA σ) (rd : Reader) (act : Script) : Nat → Nat → BState → BState
   | 0, _, st => st
   | fuel + 1, k, st =>
-    match scan D rd (tokFuel st) st 0 (D.start st.atBol) none with
+    match scan D rd (tokFuel st) st 0 (D.start st.atBol) none (st.buf.drop (st.tok + st.pre)) with
     | .tok st' (some (l, r)) =>
       if l = 0 then { st' with out := st'.out.push .jammed } else
       let text := (st'.buf.drop st'.tok).take (st'.pre + l)          -- yytext, prefix included
